@@ -99,8 +99,10 @@ package syntax
 //@   ensures[agrees] c != nil && old(c.ascii) == nil ==> fresh(c.ascii) && forall a rune :: 0 <= a && a < 128 ==> BitmapHas(c.ascii, a) == Member(*c, a)
 //@   loop 0:
 //@     invariant 0 <= i && i < 128 && c != nil && c.ascii == nil && bm != nil && fresh(bm)
-//@     invariant forall a rune :: 0 <= a && a < i ==> BitmapHas(bm, a) == Member(*c, a)
-//@     invariant forall a rune :: i <= a && a < 128 ==> !BitmapHas(bm, a)
+//@     invariant[lo-done] forall a rune :: 0 <= a && a < i && a < 64 ==> (band(bm.bits[0], pow2(a)) != 0) == Member(*c, a)
+//@     invariant[hi-done] forall a rune :: 64 <= a && a < i ==> (band(bm.bits[1], pow2(a - 64)) != 0) == Member(*c, a)
+//@     invariant[lo-todo] forall a rune :: i <= a && a < 64 ==> band(bm.bits[0], pow2(a)) == 0
+//@     invariant[hi-todo] forall a rune :: i <= a && 64 <= a && a < 128 ==> band(bm.bits[1], pow2(a - 64)) == 0
 //@     invariant 0 <= bm.bits[0] && bm.bits[0] < 18446744073709551616 && 0 <= bm.bits[1] && bm.bits[1] < 18446744073709551616
 //@     decreases 128 - i
 
